@@ -320,6 +320,24 @@ def check_constraints(env, customs):
                 raise ModelFail('condition violated', ['Node does not fullfil a condition:'])
 
 
+def fit_host(v, D, typ, sl, flags):
+    """shape of a delivered value against the host's declared shape D.  Documented semantics: they must agree.
+    With the stale-raw-value defect the real checks decide: only the declared axes are compared (extra axes pass), a
+    scalar str host takes the source text of an array as it was written, anything else fails to cast."""
+    S = vshape(v)
+    if S == D:
+        return v
+    if F_STALE not in flags:
+        raise ModelFail('delivered shape %r does not fit host %r' % (S, D), SIG_CAST)
+    if not D:
+        if typ == 'str' and not sl and isinstance(v, list) and all(isinstance(x, str) for x in v):
+            return lit_text(dict(items=v, type='str'))
+        raise ModelFail('array delivered to a scalar host', SIG_CAST, F_STALE)
+    if len(S) < len(D) or S[:len(D)] != D:
+        raise ModelFail('delivered shape %r does not fit host %r' % (S, D), SIG_CAST, F_STALE)
+    return v
+
+
 def residue_cast(node, v, flags):
     """recorded defect: only the first axis of the slice of `x = {ref}[i,j]` is consumed at definition; the rest is
     applied again whenever the node object casts a value (modification, re-creation of an imported copy)"""
@@ -412,10 +430,7 @@ def interp(stmts, env, flags, remotes, where='main'):
                     v = apply_slice(srcval, sl)
                 except (IndexError, TypeError):
                     raise ModelFail('slice does not fit the delivered value', SIG_CAST, F_STALE)
-                want = st.get('dim') or []
-                if vshape(v) != list(want):
-                    raise ModelFail('delivered shape %r does not fit host %r' % (vshape(v), want), SIG_CAST,
-                                    F_STALE if F_STALE in flags else None)
+                v = fit_host(v, list(st.get('dim') or []), st['type'], sl, flags)
                 unit = st.get('unit') or m.unit
                 try:
                     val = cast(v, st['type'])
@@ -457,8 +472,7 @@ def interp(stmts, env, flags, remotes, where='main'):
                         v = apply_slice(srcval, sl)
                     except (IndexError, TypeError):
                         raise ModelFail('slice does not fit the delivered value', SIG_CAST, F_STALE)
-                    if vshape(v) != vshape(h.value):
-                        raise ModelFail('delivered shape does not fit host', SIG_CAST, F_STALE if F_STALE in flags else None)
+                    v = fit_host(v, vshape(h.value), h.type, sl, flags)
                 try:
                     v = cast(v, h.type)
                 except (ValueError, TypeError):
